@@ -3,6 +3,7 @@
 (Generated/FuncsOpen.lean) is `ClusterTail.decode` of the reader model.
 -/
 import JubakoModel.Lemmas.FuncsOpen
+import JubakoModel.Model.DirLayout
 import JubakoModel.Lemmas.OutcomeLemmas
 set_option linter.unusedSimpArgs false
 namespace Jubako
@@ -254,6 +255,74 @@ theorem gen_valueStoreBuilderParse (bs : Bytes) :
         have n1 : k.toNat ≠ 1 := fun h => h1 (UInt8.toNat_inj.mp h)
         simp only [h0, h1, if_false]
         exact Outcome.same_refl _
+
+
+/-! ### the tail of an entry store -/
+
+/-- the tail of an entry store as the model reads it: kind byte 0 then the layout; kinds 1 and 2 are the
+    `todo!()` of the source, anything else a format error -/
+def modelEntryTail (tb : Bytes) : Outcome Layout :=
+  match tb with
+  | [] => .err .format
+  | k :: rest =>
+    if k = 1 ∨ k = 2 then .panic "entry_store.rs: todo!() (store kind)"
+    else if k ≠ 0 then .err .format
+    else Layout.decode rest
+
+theorem entryStoreOpen_tail (f : Bytes) (so : Nat × Nat) :
+    entryStoreOpen f so =
+      (readBlock f so.1 so.2).bind fun tb => (modelEntryTail tb).bind fun l =>
+        if l.checked then
+          let ds := l.entryCount * (l.entrySize + 4)
+          if so.1 < ds then .panic "offset.rs: subtraction underflow"
+          else if so.1 ≤ f.length then .ok (l, slice f (so.1 - ds) ds) else .err .format
+        else
+          let ds := l.entryCount * l.entrySize
+          if so.1 < ds + 4 then .panic "offset.rs: subtraction underflow"
+          else (readBlock f (so.1 - ds - 4) ds).bind fun d => .ok (l, d) := by
+  unfold entryStoreOpen modelEntryTail
+  simp only [bind]
+  cases readBlock f so.1 so.2 with
+  | ok tb =>
+    simp only [Outcome.bind_ok]
+    cases tb with
+    | nil => rfl
+    | cons k rest =>
+      simp only []
+      by_cases h12 : k = 1 ∨ k = 2
+      · simp [h12]
+      · by_cases h0 : k ≠ 0
+        · simp [h12, h0]
+        · simp only [h12, h0, if_false]
+          try rfl
+  | _ => rfl
+
+/-- **The tail of an entry store is read as the source reads it**: `EntryStoreBuilder::parse` (with
+    `StoreKind::parse`) translated on every run — store kind 0 then the layout, kinds 1 and 2 the `todo!()` of
+    the source (a panic), any other kind a format error — is what the model's `entryStoreOpen` does with the
+    tail block, for every layout parser. -/
+theorem gen_entryStoreBuilderParse (tb : Bytes) :
+    ((Generated.entryStoreBuilderParse tb (fun bs => (Layout.decode bs).map' (fun l => (l, ([] : Bytes))))).map' (·.1)).Same
+      (modelEntryTail tb) := by
+  cases tb with
+  | nil => exact Outcome.same_refl _
+  | cons k rest =>
+    have t1 : takeLE (k :: rest) 1 = .ok (k.toNat, rest) := by simp [takeLE, leNat]
+    unfold Generated.entryStoreBuilderParse Generated.storeKindParse modelEntryTail
+    simp only [t1, Outcome.bind_ok]
+    by_cases h0 : k = 0
+    · subst h0
+      simp only [show (0 : UInt8).toNat = 0 from rfl, Outcome.bind_ok]
+      cases Layout.decode rest <;> first | exact Outcome.same_refl _ | exact Outcome.same_panic _ _
+    · by_cases h1 : k = 1
+      · subst h1; exact Outcome.same_panic _ _
+      · by_cases h2 : k = 2
+        · subst h2; exact Outcome.same_panic _ _
+        · have n0 : k.toNat ≠ 0 := fun h => h0 (UInt8.toNat_inj.mp h)
+          have n1 : k.toNat ≠ 1 := fun h => h1 (UInt8.toNat_inj.mp h)
+          have n2 : k.toNat ≠ 2 := fun h => h2 (UInt8.toNat_inj.mp h)
+          simp only [h0, h1, h2, or_self, if_false, ne_eq, not_false_eq_true, if_true]
+          exact Outcome.same_refl _
 
 
 end Jubako
